@@ -2,14 +2,17 @@
 # try_seed.sh <patch file> <checks...>: apply a seeded change to /repo, run the given checks (quick), undo.
 cd "$(dirname "$0")/.." || exit 2
 PATCH=$(realpath "$1"); shift
-git -C /repo diff --quiet || { echo "/repo working tree not clean"; exit 2; }
+# REPO=<clone> runs against a scratch clone of /repo (with its python/ first on PYTHONPATH) instead of /repo itself
+REPO=${REPO:-/repo}
+[ "$REPO" = /repo ] || export PYTHONPATH="$REPO/python"
+git -C $REPO diff --quiet || { echo "/repo working tree not clean"; exit 2; }
 SAVE=$(mktemp -d /tmp/verif-evid.XXXXXX); cp -r evidence "$SAVE"/
-git -C /repo apply "$PATCH" || { echo "patch does not apply"; exit 2; }
+git -C $REPO apply "$PATCH" || { echo "patch does not apply"; exit 2; }
 for p in "$@"; do
   out=$(./check $p ${TIER:-quick} 2>&1); rc=$?
   echo "== $p rc=$rc: $(echo "$out" | grep -v KNOWN | tail -1 | cut -c1-200)"
   echo "$out" | grep "^VIOLATION" | head -3
 done
-git -C /repo checkout -- . ; /venv/bin/python harness/extract.py > /dev/null
+git -C $REPO checkout -- . ; /venv/bin/python harness/extract.py > /dev/null
 # evidence/replays written while a seeded change was applied do not describe /repo: restore
 rm -rf evidence; cp -r "$SAVE"/evidence . ; rm -rf "$SAVE"
